@@ -72,6 +72,13 @@ open MdIt.Inline
 #check @labelLoop_hits
 #check @parseLinkLabel_hits
 #check @parseLink_hits
+#check @nested_eq
+#check @chain_L2
+#check @over_limit
+#check @parseInline_total_link
+#check @parseInline_total_of_nestHyps
+#check @parseInline_total_coherent_link
+#check @nestHyps_of
 
 #print axioms lookahead_guard_free
 #print axioms skip_guard_free
@@ -144,3 +151,10 @@ open MdIt.Inline
 #print axioms labelLoop_hits
 #print axioms parseLinkLabel_hits
 #print axioms parseLink_hits
+#print axioms nested_eq
+#print axioms chain_L2
+#print axioms over_limit
+#print axioms parseInline_total_link
+#print axioms parseInline_total_of_nestHyps
+#print axioms parseInline_total_coherent_link
+#print axioms nestHyps_of
